@@ -1,6 +1,9 @@
 """C02 — Map, Dic, HashMap, HashDic and Set behave as finite maps and sets: plugin for tools/check.py"""
-from lib import core
+import re
+
+from lib import core, cparse
 from lib.core import hexs
+from lib.engine import TranslateError
 
 ID = "C02"
 PROPS_MODULE = "AslProps.C02"
@@ -20,6 +23,70 @@ ASSUMPTIONS = ["String keys are NUL-free: String::compare is libc strcmp = lexic
                "Array<T>::insert/remove/clone on an unshared array behave as list insert/erase/copy (C01)",
                "operator new/delete of chain nodes succeed; each HashMap handle is unshared when mutated (C02 does not quantify over shared handles)"]
 SHRINK_KEEP_FIRST = 0
+
+FALLBACK = {"Gen/HashMapGen.lean": "/- placeholder written because the translator failed on the current source -/\n"
+            "namespace Gen.HashMap\ndef hashMul : Int := 0\ndef defaultBuckets : Nat := 0\ndef growNum : Nat := 0\n"
+            "def growDen : Nat := 0\ndef growFactor : Nat := 0\ndef maxSlots : Nat := 0\ndef skip : Nat := 0\n"
+            "def potShifts : List Nat := []\nend Gen.HashMap\n"}
+
+
+def _one(rx, src, what):
+    m = re.findall(rx, src)
+    if len(m) != 1:
+        raise TranslateError("%s: expected exactly one match of /%s/ in include/asl/HashMap.h, found %d" % (what, rx, len(m)))
+    return m[0]
+
+
+def translate(repo):
+    """G: the constants of the hash table (hash multiplier, default size, growth rule, nextPoT shifts) are re-read from
+    include/asl/HashMap.h on every run; anything unrecognised is an error, never a default"""
+    src = cparse.read(repo, "include/asl/HashMap.h").replace("\r\n", "\n")
+    # hash(int x) must be the identity
+    body = cparse.find_function(src, r"inline\s+int\s+hash\s*\(\s*int\s+x\s*\)\s*\{")
+    if re.sub(r"\s+", "", body) != "{returnx;}":
+        raise TranslateError("hash(int) is no longer `return x;`: " + body.strip()[:80])
+    # hash(const String&): h = MUL*h + p[i] over `const char* p`, from h = 0
+    body = cparse.find_function(src, r"inline\s+int\s+hash\s*\(\s*const\s+String\s*&\s*s\s*\)\s*\{")
+    flat = re.sub(r"\s+", "", body)
+    m = re.fullmatch(r"\{inth=0,n=s\.length\(\);constchar\*p=s;for\(inti=0;i<n;i\+\+\)h=(\d+)\*h\+p\[i\];returnh;\}", flat)
+    if not m:
+        raise TranslateError("hash(const String&) has an unrecognised shape: " + flat[:120])
+    mul = int(m.group(1))
+    # ASL_HMAP_SKIP: two header slots when AtomicCount fits a pointer (checked at run time by the harness `raw` op)
+    sk = _one(r"#define\s+ASL_HMAP_SKIP\s+(.*)", src, "ASL_HMAP_SKIP").strip()
+    if re.sub(r"\s+", "", sk) != "(2+int((sizeof(AtomicCount)-1)/sizeof(void*)))":
+        raise TranslateError("ASL_HMAP_SKIP has an unrecognised definition: " + sk)
+    # nextPoT: n--; n |= n >> k; ... ; return n + 1;
+    body = re.sub(r"\s+", "", cparse.find_function(src, r"inline\s+int\s+nextPoT\s*\(\s*int\s+n\s*\)\s*\{"))
+    m = re.fullmatch(r"\{n--;((?:n\|=n>>\d+;)+)returnn\+1;\}", body)
+    if not m:
+        raise TranslateError("nextPoT has an unrecognised shape: " + body[:120])
+    shifts = [int(x) for x in re.findall(r"n>>(\d+);", m.group(1))]
+    dflt = int(_one(r"HashMap\s*\(\s*\)\s*:\s*a\s*\(\s*(\d+)\s*\+\s*ASL_HMAP_SKIP\s*\)", src, "HashMap() default size"))
+    body = cparse.find_function(src, r"void\s+rehash\s*\(\s*\)\s*\{")
+    flat = re.sub(r"\s+", "", body)
+    m = re.search(r"if\(_n\(\)<a\.length\(\)\*(\d+)/(\d+)\|\|a\.length\(\)>(\d+)\)return;", flat)
+    if not m:
+        raise TranslateError("rehash(): growth condition not recognised")
+    num, den, mx = int(m.group(1)), int(m.group(2)), int(m.group(3))
+    m = re.search(r"Array<KeyValN\*>b\(\(a\.length\(\)-ASL_HMAP_SKIP\)\*(\d+)\+ASL_HMAP_SKIP\);", flat)
+    if not m:
+        raise TranslateError("rehash(): new table size not recognised")
+    fac = int(m.group(1))
+    if "intbin=(hash(p->key)&(b.length()-ASL_HMAP_SKIP-1))+ASL_HMAP_SKIP;" not in flat:
+        raise TranslateError("rehash(): bucket computation for the new table not recognised")
+    binof = re.sub(r"\s+", "", cparse.find_function(src, r"int\s+binOf\s*\(\s*const\s+K\s*&\s*key\s*\)\s*const\s*\{"))
+    if binof != "{return(hash(key)&(a.length()-ASL_HMAP_SKIP-1))+ASL_HMAP_SKIP;}":
+        raise TranslateError("binOf has an unrecognised shape: " + binof[:120])
+    txt = "/- GENERATED by tools/props/c02.py from include/asl/HashMap.h — do not edit -/\nnamespace Gen.HashMap\n\n"
+    txt += "/-- multiplier of `hash(const String&)`: `h = hashMul*h + p[i]` -/\ndef hashMul : Int := %d\n" % mul
+    txt += "/-- bucket count of `HashMap()` -/\ndef defaultBuckets : Nat := %d\n" % dflt
+    txt += "/-- `rehash()` grows when `_n() >= a.length()*growNum/growDen` unless `a.length() > maxSlots`, by `growFactor` -/\n"
+    txt += "def growNum : Nat := %d\ndef growDen : Nat := %d\ndef growFactor : Nat := %d\ndef maxSlots : Nat := %d\n" % (num, den, fac, mx)
+    txt += "/-- `ASL_HMAP_SKIP` (header slots) when `sizeof(AtomicCount) <= sizeof(void*)` -/\ndef skip : Nat := 2\n"
+    txt += "/-- the shifts of `nextPoT`: `n |= n >> k` in this order -/\ndef potShifts : List Nat := [%s]\n" % ", ".join(map(str, shifts))
+    txt += "\nend Gen.HashMap\n"
+    return {"Gen/HashMapGen.lean": txt}
 
 ORDERED = ("mi", "ds")
 HASHED = ("hi", "hs")
